@@ -160,6 +160,32 @@ theorem c14_rollback_loop_without_check (rounds : Nat) :
 theorem c14_witness_now_unrecoverable :
     (update c14Settings 0 c14Node 40 c14Db []).2.2 = .unrecoverable := by rfl
 
+/-- **No savepoint to roll back to** (an index that stopped while further from the tip than
+`savepointInterval * maxSavepoints + 1` blocks): whenever the indexing loop reports a reorg and the
+database holds no savepoint, `update` answers `unrecoverable` at once and leaves the durable state
+as the loop left it — it neither rolls back nor retries.  (The unrepaired code called
+`min().unwrap()` here and panicked; /repo 6846460 returns `Error::Unrecoverable`, as modelled.) -/
+theorem c14_no_savepoint_unrecoverable (s : Settings) (hd : Nat) (node : List Nat) (rounds : Nat)
+    (db db' : Db) (evs e : List Ev) (k : Detect)
+    (hr : updateIndex s hd node (node.length + 2) db db.cur.chain 0 [] = .reorg db' e k)
+    (hs : db'.savepoints = []) :
+    update s hd node (rounds + 1) db evs = (db', evs ++ e, .unrecoverable) := by
+  unfold update
+  rw [hr]
+  cases k with
+  | ok => rfl
+  | recoverable h d => simp [handleReorg, hs]
+  | unrecoverable => rfl
+
+/-- far behind the tip no savepoint is taken: `isSavepointRequired` is false whenever more than
+`savepointInterval * maxSavepoints + 1` blocks separate the height from the node's header count -/
+theorem c14_no_savepoint_far_from_tip (s : Settings) (lastSp headers height : Nat)
+    (h : s.savepointInterval * s.maxSavepoints + 1 < headers - height) :
+    isSavepointRequired s lastSp headers height = false := by
+  unfold isSavepointRequired
+  simp only [Bool.and_eq_false_iff, decide_eq_false_iff_not, Nat.not_le]
+  exact Or.inr h
+
 /-! Non-vacuity: a recoverable reorganisation that is undone (savepoints at 3 and 6 blocks,
 interval 3; fork after block 4). -/
 example :
